@@ -252,6 +252,8 @@ func runC20(c *Check) {
 	_ = sendSel
 	// R20.5
 	c20Loops(c, body)
+	// "send only after successful retrieval" rests on getBlobs not turning a failure into an empty success (C11 R11.4)
+	importRules(c, "R20.2", "getBlobs error mapping (C11 R11.4)", runC11, func(f Finding) bool { return f.Rule == "R11.4" && strings.Contains(f.Construct, "getBlobs") }, func(s *Check) int { return s.evals })
 }
 
 // ctxSource names the context a Done()/Err() call consults.
